@@ -119,6 +119,8 @@ def run_app(sc):
             s = VSock(w, [(e[0], e[1]) + ((bytes.fromhex(e[2]),) if len(e) > 2 else ()) for e in spec.get("events", [])],
                       status=spec.get("status"), tls_pending=bool(spec.get("tls")), pong_latency=spec.get("pong_latency"))
             s.spec = spec
+            if spec.get("send_stalls_from") is not None:
+                s.send_stalls_from = spec["send_stalls_from"]
             if spec.get("short_body"):
                 # a rejection whose declared body is longer than what arrives before the peer closes
                 s.reject_tail = b"Content-Length: 50\r\n\r\nabc"
